@@ -1,4 +1,5 @@
 import Hive.Proofs.DaemonRun
+import Hive.Gen.C20_Skel
 /-!
 # C20 — the daemon stops background workers in descending shutdown order
 
@@ -180,5 +181,66 @@ example :
       [(0, 0), (0, 0), (1, 0), (1, 0), (1, 0), (2, 0), (2, 0), (2, 0), (2, 0), (2, 0), (2, 0), (2, 0),
        (3, 0), (3, 0), (1, 0), (1, 0)]).1.tr := by
   decide +kernel
+
+
+/-! ## Regenerated tie: the synchronisation skeletons the protocol model was written against
+
+`Hive/Gen/C20_Skel.lean` is regenerated from `app/daemon/daemon.go` on every run (`harness/tools/extract-sync`).
+The equalities below are the structure `Hive/Model/Daemon.lean` mirrors: the unlocked `IsStopped` checks
+followed by the re-check under `d.lock`; `wg.Add` / flag / `go` / `wg.Done` / clean-up / flag of a worker
+goroutine; `stopped.Store` under the lock, `IsRunning`, `stopWorkers`, `running.Store`, `clear` in
+`shutdown`; the flag load, the conditional `Wait`, `ctxCancel` and the final `Wait` of `stopWorkers`; `Run` =
+`Start`, copy, `Wait`s.  A change of that structure breaks these obligations. -/
+open Hive.Gen.C20Skel
+
+theorem C20_skeleton_BackgroundWorker : skel_OrderedDaemon_BackgroundWorker = [
+  "call d.IsStopped", "if{", "return", "}if", "lock d.lock", "defer unlock d.lock", 
+  "call d.IsStopped", "if{", "return", "}if", "if{", "call d.running.Load", 
+  "if{", "return", "}if", "call exWorker.running.Load", "if{", "return", 
+  "}if", "}if", "if{", "}else{", "}if", "if{", 
+  "}if", "func{", "return", "}func", "call sort.Slice", "call d.IsRunning", 
+  "if{", "helper runBackgroundWorker", "}if", "return"] := by decide
+
+theorem C20_skeleton_runBackgroundWorker : skel_OrderedDaemon_runBackgroundWorker = [
+  "call shutdownOrderWaitGroup.Add", "call worker.running.Store", "go", "func{", "if{", "}if", 
+  "call shutdownOrderWaitGroup.Done", "helper cleanupWorker", "call worker.running.Store", "if{", "}if", "}func"] := by decide
+
+theorem C20_skeleton_Start : skel_OrderedDaemon_Start = [
+  "call d.IsStopped", "if{", "return", "}if", "lock d.lock", "defer unlock d.lock", 
+  "call d.IsStopped", "if{", "return", "}if", "call d.IsRunning", "if{", 
+  "call d.running.Store", "for{", "helper runBackgroundWorker", "}for", "}if"] := by decide
+
+theorem C20_skeleton_Run : skel_OrderedDaemon_Run = [
+  "helper Start", "helper waitGroupsForAllShutdownOrders", "for{", "if{", "continue", "}if", 
+  "call wg.Wait", "}for"] := by decide
+
+theorem C20_skeleton_waitGroupsForAllShutdownOrders : skel_OrderedDaemon_waitGroupsForAllShutdownOrders = [
+  "rlock d.lock", "defer runlock d.lock", "if{", "return", "}if", "for{", 
+  "}for", "return"] := by decide
+
+theorem C20_skeleton_shutdown : skel_OrderedDaemon_shutdown = [
+  "if{", "}if", "lock d.lock", "call d.stopped.Store", "unlock d.lock", "call d.stoppedCtxCancel", 
+  "call d.IsRunning", "if{", "return", "}if", "helper stopWorkers", "call d.running.Store", 
+  "helper clear"] := by decide
+
+theorem C20_skeleton_stopWorkers : skel_OrderedDaemon_stopWorkers = [
+  "helper getWorkersAndShutdownOrder", "if{", "for{", "call worker.running.Load", "if{", "call worker.ctxCancel", 
+  "continue", "}if", "if{", "call d.wgPerSameShutdownOrder[prevPriority].Wait", "}if", "if{", 
+  "}if", "call worker.ctxCancel", "}for", "call d.wgPerSameShutdownOrder[prevPriority].Wait", "}if"] := by decide
+
+theorem C20_skeleton_getWorkersAndShutdownOrder : skel_OrderedDaemon_getWorkersAndShutdownOrder = [
+  "rlock d.lock", "defer runlock d.lock", "for{", "}for", "return"] := by decide
+
+theorem C20_skeleton_cleanupWorker : skel_OrderedDaemon_cleanupWorker = [
+  "lock d.lock", "defer unlock d.lock", "call d.IsStopped", "if{", "return", "}if"] := by decide
+
+theorem C20_skeleton_clear : skel_OrderedDaemon_clear = [
+  "lock d.lock", "defer unlock d.lock"] := by decide
+
+theorem C20_skeleton_Shutdown : skel_OrderedDaemon_Shutdown = [
+  "go", "call d.stopOnce.Do"] := by decide
+
+theorem C20_skeleton_ShutdownAndWait : skel_OrderedDaemon_ShutdownAndWait = [
+  "call d.stopOnce.Do"] := by decide
 
 end Hive.Daemon
